@@ -200,8 +200,7 @@ type gen struct {
 	cover   map[string]int
 
 	nBase, nBaseAccepted, nMutants, nMutRejected int
-	baseFailExplained                             int
-	err                                           error
+	err                                          error
 }
 
 func (g *gen) newSigner(ckd bool, path [][]byte) *signer {
@@ -292,7 +291,7 @@ func (g *gen) newLock(wsh, ckd bool, m, n int) *lock {
 
 func (g *gen) randomLock() *lock {
 	ckd := g.r.Chance(72)
-	if g.r.Chance(30) {
+	if g.r.Chance(36) {
 		return g.newLock(false, ckd, 1, 1)
 	}
 	p := g.pairs[g.pairIdx%len(g.pairs)]
@@ -454,6 +453,11 @@ func rejClass(err error) string {
 	if !strings.HasPrefix(c, "EOther") {
 		return "rej:" + c
 	}
+	switch errors.Root(err) {
+	case validation.ErrUnbalanced, validation.ErrGasCalculate:
+		// the mux check ranges over a Go map: which of the two is reported first is not deterministic
+		return "rej:mux-unbalanced-or-gas-calculate"
+	}
 	return "rej:" + strings.ReplaceAll(errors.Root(err).Error(), " ", "-")
 }
 
@@ -561,7 +565,6 @@ func (g *gen) check(tx *types.Tx, blk *bc.Block, kind, what string, input int, i
 	}
 	if !isMutant && !res.accepted {
 		st.Fail(fmt.Sprintf("class=valid-spend-rejected: correctly signed transaction rejected: %v", errors.Root(err)), desc(-1))
-		g.baseFailExplained++
 	}
 	// statistics
 	key := hx(sha3sum(ser(&tx.TxData), []byte(fmt.Sprintf("|%d|%d", tx.TxData.SerializedSize, blk.Version))))
@@ -889,7 +892,9 @@ func (g *gen) mutants(b *baseTx) []*mutant {
 			}
 		}
 		if !l.wsh {
-			w("pubkey-flip", func(s *types.SpendInput) string { return "public key argument: " + g.flip(s.Arguments[nsig], r.Intn(32)) })
+			w("pubkey-flip", func(s *types.SpendInput) string {
+				return "public key argument: " + g.flip(s.Arguments[nsig], r.Intn(32))
+			})
 			w("fresh-keypair", func(s *types.SpendInput) string {
 				k := g.newSigner(false, nil)
 				s.Arguments[0], s.Arguments[1] = k.sign(sighash), cp(k.pub)
@@ -910,7 +915,9 @@ func (g *gen) mutants(b *baseTx) []*mutant {
 			}
 			w("script-m-flip", func(s *types.SpendInput) string { return "redeem script, m: " + g.flip(s.Arguments[nsig], 1+33*n) })
 			w("script-n-flip", func(s *types.SpendInput) string { return "redeem script, n: " + g.flip(s.Arguments[nsig], 2+33*n) })
-			w("script-op-flip", func(s *types.SpendInput) string { return "redeem script, TXSIGHASH opcode: " + g.flip(s.Arguments[nsig], 0) })
+			w("script-op-flip", func(s *types.SpendInput) string {
+				return "redeem script, TXSIGHASH opcode: " + g.flip(s.Arguments[nsig], 0)
+			})
 			w("script-op-flip", func(s *types.SpendInput) string {
 				return "redeem script, CHECKMULTISIG opcode: " + g.flip(s.Arguments[nsig], len(s.Arguments[nsig])-1)
 			})
@@ -1049,7 +1056,9 @@ func (g *gen) mutants(b *baseTx) []*mutant {
 	}
 
 	// ---- committed fields (signatures stay those of the base transaction)
-	cm := func(kind string, input int, f func(d *types.TxData) string) { add(kind, "committed", input, block1, false, f) }
+	cm := func(kind string, input int, f func(d *types.TxData) string) {
+		add(kind, "committed", input, block1, false, f)
+	}
 	bump := func(d *types.TxData, asset bc.AssetID, exceptOut int, delta int) bool { // adjust an output (or, failing that, an input) of the asset
 		for k, o := range d.Outputs {
 			if k != exceptOut && *o.AssetId == asset && (delta > 0 || o.Amount >= 1) {
@@ -1754,15 +1763,14 @@ func run(c *Ctx) error {
 	st.Distribution["model_evaluated"] = c.Cases.Len()
 	st.Distribution["base-accepted"] = g.nBaseAccepted
 	st.Rule = "base transactions: version 1, 1-3 spend inputs locked by P2WPKH or P2WSH(m-of-n multisig, all 1<=m<=n<=6 in rotation), real chainkd keys (wallet derivation paths) signed through txbuilder.Sign with RawTxSigWitness+DataWitness instructions laid out like account.UtxoToInputs, or plain ed25519 keys; random m-subset of signers; 1-3 outputs, BTM fee giving 17k..350k gas, optionally a second exactly balanced asset, optional state data, two inputs sharing keys in ~30% of multi-input transactions. Every accepted base transaction gets EVERY single mutation (witness level: bit flips in each signature's first/last/R/S bytes, in each public key, m, n, opcodes of the redeem script, truncated/extended/foreign/reordered/dropped/duplicated signatures, replayed signatures of a sibling transaction or of another input, signatures over the tx id; committed level: every input and output field, time range, version, added/removed/reordered inputs and outputs; uncommitted: SerializedSize). Every transaction is validated by validation.ValidateTx and judged by the direct oracle (exhaustive m-subset search with ed25519.Verify over sha3_256(inputID||txID)). Model cases: VM run of every base input and of ~6 mutants per base on the validator's own vm.Context (real and small gas), almost-standard programs, builders, sighash, witness layouts. distinct = distinct serialized transaction (with witness and size) / distinct builder or layout input; non-trivial = a mutant, or a base transaction with at least one standard input, or a builder/layout case"
-	// E. degenerate-run guard
-	if g.nBaseAccepted*100 < g.nBase*95 && g.baseFailExplained == 0 {
-		return fmt.Errorf("degenerate run: only %d of %d base transactions accepted", g.nBaseAccepted, g.nBase)
-	}
-	if g.nBaseAccepted*100 < g.nBase*95 && len(st.OracleFailures) == 0 {
-		return fmt.Errorf("degenerate run: only %d of %d base transactions accepted and no oracle failure explains it", g.nBaseAccepted, g.nBase)
-	}
-	if g.nMutRejected == 0 {
-		return fmt.Errorf("degenerate run: no mutant was rejected (%d mutants)", g.nMutants)
+	// E. degenerate-run guard (an oracle failure explains a run without accepted bases / rejected mutants)
+	if len(st.OracleFailures) == 0 {
+		if g.nBaseAccepted*100 < g.nBase*95 {
+			return fmt.Errorf("degenerate run: only %d of %d base transactions accepted and no oracle failure explains it", g.nBaseAccepted, g.nBase)
+		}
+		if g.nMutRejected == 0 {
+			return fmt.Errorf("degenerate run: no mutant was rejected (%d mutants)", g.nMutants)
+		}
 	}
 	c.Cases.Shard = 100
 	// C02/Model.v opens N_scope at top level, which is exported to importers: re-open Z_scope
